@@ -8,3 +8,19 @@ open SemantivaModel.Inspect
 #print axioms analysis_sound
 #print axioms key_delta_declared
 #print axioms SemantivaModel.Tie.C02.C02_analysis_sound
+#print axioms step_frame_get
+#print axioms step_suppressed_absent
+#print axioms oinv_step
+#print axioms oinv_execHist
+#print axioms execHist_fst
+#print axioms execHist_prefix
+#print axioms origin_config_true
+#print axioms origin_node_true
+#print axioms origin_initial_true
+#print axioms origin_default_true_partial
+#print axioms simAO_prefix
+#print axioms origin_initial_true_of_accepted
+#print axioms origin_default_untrue_witness
+#print axioms SemantivaModel.Tie.C02.C02_origin_node_true
+#print axioms SemantivaModel.Tie.C02.C02_origin_initial_true
+#print axioms SemantivaModel.Tie.C02.C02_origin_default_true_partial
